@@ -668,15 +668,73 @@ def part_g(ctx, rng, n):
     the sequence (stored key, pinned nodes) of lookups (hand-over), inserts / deletes (the whole path) and
     minKey(k) / maxKey(k) (root + hand-over) must be the model's -- also when the n-th comparison raises (then a
     prefix of it), and nothing may be sticky afterwards."""
-    from BTrees.OOBTree import OOBTree, OOTreeSet
+    from BTrees.OOBTree import OOBTree, OOTreeSet, OOBucket, OOSet
     from harness import caseutil
     from harness.props.c14 import shape_term
     terms, meta = [], []
     terms2, meta2 = [], []
     nobs = 0
     for it in range(n):
-        cls = rng.choice([OOBTree, OOTreeSet])
-        setlike = cls is OOTreeSet
+        cls = rng.choice([OOBTree, OOTreeSet, OOBTree, OOTreeSet, OOBucket, OOSet])     # a stored Bucket / Set on its own: the one-node path
+        setlike = cls in (OOTreeSet, OOSet)
+        leafonly = cls in (OOBucket, OOSet)
+        if leafonly:
+            jar = Jar(Storage())
+            t = cls()
+            ks = sorted(rng.sample(range(0, 90, 2), rng.randint(1, 12)))
+            for k in ks:
+                if setlike:
+                    t.add(PinKey(k))
+                else:
+                    t[PinKey(k)] = k
+            jar.add(t)
+            jar.commit()
+            nodes, sh = [t], ("leaf", ks)
+            for k in sorted(set(rng.sample(ks, min(2, len(ks))) + [rng.randrange(-1, 91) for _ in range(2)])):
+                present = k in ks
+                calls = [("get", 0, False, lambda key: key in t), ("minKey", 2, False, lambda key: t.minKey(key)), ("maxKey", 2, False, lambda key: t.maxKey(key)),
+                         ("keys", 2, False, lambda key: t.keys(key))]
+                if present:
+                    calls.append(("del-existing", 1, False, (lambda key: t.remove(key)) if setlike else (lambda key: t.__delitem__(key))))
+                else:
+                    calls.append(("set-new", 1, False, (lambda key: t.add(key)) if setlike else (lambda key: t.__setitem__(key, k))))
+                for name, d, sepcheck, fn_ in calls:
+                    total = None
+                    for failing in [None, 1, 2, 3]:
+                        if failing is not None and (total is None or failing > total):
+                            break
+                        jar.abort()
+                        jar.minimize()
+                        obs = []
+
+                        def hook0(stored):
+                            obs.append((stored, [0] if t._p_state == STICKY else []))
+                            if failing is not None and len(obs) == failing:
+                                raise _Boom()
+                        PinKey.hook = hook0
+                        raised = False
+                        try:
+                            fn_(PinKey(k, True))
+                        except _Boom:
+                            raised = True
+                        except (KeyError, ValueError):
+                            pass
+                        finally:
+                            PinKey.hook = None
+                        if failing is None:
+                            total = len(obs)
+                        nobs += len(obs)
+                        if t._p_state == STICKY:
+                            ctx.oracle_failure("C:%s:sticky-after:%s%s" % (cls.__name__, name, "-raising" if raised else ""),
+                                               "%s keys %r stored: %s(%d)%s leaves it pinned (_p_state == 2)" % (cls.__name__, ks, name, k, (" with comparison #%d raising" % failing) if raised else ""),
+                                               {"kind": cls.__name__, "keys": ks, "call": name, "key": k, "failing": failing})
+                            t._p_deactivate()
+                        terms.append("PINC %s %d %s %s %s [%s]" % (
+                            shape_term(sh), d, "false", caseutil.z(k), "false" if raised else "true",
+                            "; ".join("(%s, [%s])" % (caseutil.z(sk), "; ".join("%d%%nat" % i for i in pins)) for sk, pins in obs)))
+                        meta.append((cls.__name__, (0, 0), ks, name, k, failing, obs))
+            ctx.count(("g-pins-leaf", setlike, tuple(ks)))
+            continue
         old = (cls.max_leaf_size, cls.max_internal_size)
         cls.max_leaf_size, cls.max_internal_size = rng.choice([(2, 2), (2, 3), (3, 2), (4, 3), (3, 4)])
         try:
